@@ -249,9 +249,10 @@ def getCompressed (c : Cfg) (e : Encoder) : M (List Nat × Encoder) :=
     | .error f => .error f
     | .ok e' => .ok (g.bulk, e')
 
-/-- `clear()` (does not reset `situation`) -/
-def clear (c : Cfg) (e : Encoder) : Encoder :=
-  { e with bulk := [], lower := 0, range := maxState c }
+/-- `clear()`: `bulk.clear()`, `state = RangeCoderState::default()`,
+    `situation = EncoderSituation::Normal` — the state of `new()` -/
+def clear (c : Cfg) (_e : Encoder) : Encoder :=
+  { bulk := [], lower := 0, range := maxState c, situation := .normal }
 
 /-- `Pos::pos` for a `Vec` backend: `(bulk.len() + num_inverted, (lower, range))` -/
 def Encoder.pos (e : Encoder) : M (Nat × Nat × Nat) :=
